@@ -366,12 +366,12 @@ H("C16", "pin", "c16_remap_lehmer", timeout=1800, encodes=["pin::remap_pin_grid"
 H("C16", "pin", "c16_remap_periodic", timeout=5400, tiers=["thorough"], encodes=["pin::remap_pin_grid"],
   inputs="q <= 1183 and mixed-radix digits any; seed = q*10! + value (all u32 seeds)",
   asserts="layout == factorial-base decode of the digits, independent of q", bounds="all 2^32 seeds; unwind 12", assumes=[])
-H("C16", "pin", "c16_digits", timeout=900, encodes=["pin::pin_to_bytes"], inputs="pin u32 any",
+H("C16", "pin", "c16_digits", timeout=2400, encodes=["pin::pin_to_bytes"], inputs="pin u32 any",
   asserts="digits are the decimal expansion, most significant first, no leading zero, <= 10 digits", bounds="all 2^32 PINs; unwind 12", assumes=[])
-H("C16", "pin", "c16_hash_msg", timeout=1800, oracle_features=["cap64", "q4"], encodes=["pin::calculate_hash"],
+H("C16", "pin", "c16_hash_msg", timeout=1800, oracle_features=["cap64", "q16"], encodes=["pin::calculate_hash"],
   inputs="pin, seed, both salts: any", asserts="None <=> pin < 1000; else hash == SHA-1(client salt | SHA-1(server salt | ASCII positions of the digits in the layout))",
-  bounds="all PINs x all seeds; unwind 22", assumes=[HASH_ASSUME, "layout assumed a permutation here (proved by c16_remap_perm)"])
-H("C16", "pin", "c16_verify", timeout=1800, oracle_features=["cap64", "q4"], encodes=["pin::verify_client_pin_hash"],
+  bounds="all PINs x all seeds; unwind 22", assumes=[HASH_ASSUME, "remap_pin_grid and pin_to_bytes replaced by uninterpreted stubs with the consequences of their lemmas (permutation; <= 10 digits each <= 9; >= 4 digits <=> pin >= 1000)"])
+H("C16", "pin", "c16_verify", timeout=1800, oracle_features=["cap64", "q4"], encodes=["pin::verify_client_pin_hash (calculate_hash uninterpreted)"],
   inputs="pin, seed, salts, presented hash: any", asserts="true <=> a hash exists and equals the presented one over 160 bits",
   bounds="-; unwind 22", assumes=[HASH_ASSUME])
 
